@@ -167,6 +167,10 @@ class Model:
   def inv(self, j, jd):
     return self._get('inv')(j, jd)
 
+  def release(self):
+    """drop the compiled programs (hundreds of models are visited in `thorough`)"""
+    self._jit.clear()
+
   def roundtrip(self, q, qd):
     import jax.numpy as jp
     x, xd = self.fwd(jp.asarray(q), jp.asarray(qd))
@@ -244,6 +248,7 @@ def gen_opts(mi, in_q):
 
 def run_cases(ctx, n_models, n_states, seed_offset=0, spec_only=False):
   _setup()
+  import jax
   import jax.numpy as jp
   from brax.base import Motion, Transform
   rng = np.random.default_rng(ctx.seed + seed_offset)
@@ -294,6 +299,9 @@ def run_cases(ctx, n_models, n_states, seed_offset=0, spec_only=False):
       plan.append(('inv', m, dict(q=e['q_rand'], qd=e['qd_rand'], src='random')))
       lines.append(' '.join(['w2j'] + m.st + tf_tokens(xp_, xr_) + motion_tokens(xa, xv)))
       plan.append(('w2j', m, dict(real=e['w_rand'], src='random')))
+    m.release()
+    if mi % 25 == 24:
+      jax.clear_caches()
   # synthetic dof.motion on the extra models: every branch of link_to_joint_frame (zero axes -> eye,
   # rp / pr / rpp / prp / ppr completion, is_both) on random joint-frame inputs
   if not spec_only:
@@ -310,6 +318,7 @@ def run_cases(ctx, n_models, n_states, seed_offset=0, spec_only=False):
                           Motion(ang=jp.asarray(ja), vel=jp.asarray(jv)))
           lines.append(' '.join(['inv'] + m.st + tf_tokens(jp_, jr_) + motion_tokens(ja, jv)))
           plan.append(('inv', m, dict(q=np.asarray(rq), qd=np.asarray(rqd), src='random+synthetic-motion')))
+        m.release()
   res = dict(models=models, spec_failures=spec_failures, stack_hist=stack_hist, vel_meas=vel_meas,
              disagreements=[], evaluations=0, skipped=0, branch_hist={}, model_rt_max=0.0, cases=len(plan))
   if spec_only:
@@ -389,6 +398,7 @@ def step_once(m, pipe_name, q, qd, act):
 
 def run_pipelines(ctx, n_models, seed_offset=0, spec_only=False):
   _setup()
+  import jax
   rng = np.random.default_rng(ctx.seed + 500 + seed_offset)
   lines, plan, spec_failures, dis = [], [], [], []
   hist = {}
@@ -413,6 +423,9 @@ def run_pipelines(ctx, n_models, seed_offset=0, spec_only=False):
       if not spec_only:
         lines.append(' '.join(['tail'] + m.st + tf_tokens(x.pos, x.rot) + motion_tokens(xd.ang, xd.vel)))
         plan.append((m, pipe_name, q1, qd1))
+      setattr(m, f'_step_{pipe_name}', None); delattr(m, f'_step_{pipe_name}')
+    m.release()
+    jax.clear_caches()
   skipped = 0
   if lines:
     out = C.run_driver('Driver/C08.lean', lines)
